@@ -5,7 +5,8 @@ Python expression syntax, compiled by the engine's spec evaluator."""
 
 class Behaviour(object):
     def __init__(self, name, ghost=None, requires=(), ensures=None, raises=None, modifies=(), hints=(),
-                 split=(), calls=None, result=None, unfold_depth=1, loops=None, assumes=()):
+                 split=(), calls=None, result=None, unfold_depth=1, loops=None, assumes=(), native_build=None):
+        self.native_build = native_build            # expression building the real arguments from ghost values (native runs)
         self.name = name
         self.ghost = dict(ghost or {})              # ghost name -> sort
         self.requires = list(requires)
@@ -74,6 +75,7 @@ class Store(object):
         self.class_invariants = {}
         self.lemmas = {}
         self.assumptions = []     # named trusted items used by this store
+        self.compositions = {}    # name -> (function(K) -> [(id, hyps, goal)], [property ids])
 
     def contract(self, target, **kw):
         c = Contract(target, **kw)
@@ -84,6 +86,12 @@ class Store(object):
         e = External(name, **kw)
         self.externals[name] = e
         return e
+
+    def composition(self, name, props):
+        def deco(fn):
+            self.compositions[name] = (fn, list(props))
+            return fn
+        return deco
 
     def declare_fields(self, clsname, **fields):
         self.fields.setdefault(clsname, {}).update(fields)
